@@ -734,3 +734,5 @@ M('cli-single-name-not-first-choice', ['C12'], CLI, "            new_id = filter
 M('run-D66-shape-exit-kind-from-exc-info', ['C08'], F, "                        is_exc = isinstance(in_flight, Exception)  #", "                        is_exc = isinstance(sys.exc_info()[1], Exception)  #", ['C08.R10'])
 M('zmq-D67-shape-pub-closed-with-default-linger', ['C05'], Z, "            pub.close(linger=ZMQ_EXPLICIT_LINGER)  #", "            pub.close()  #", ['C05.R12'])
 M('zmq-pub-closed-with-infinite-linger', ['C05'], Z, "            pub.close(linger=ZMQ_EXPLICIT_LINGER)  #", "            pub.close(linger=-1)  #", ['C05.R12'])
+M('rolllog-D68-shape-second-listing-unbounded', ['C13', 'C14'], RL, "(m := re_logpath.match(path)) and int(m.group(1)) <= newest:", "(m := re_logpath.match(path)):", ['C13.R8', 'C14.R7'])
+M('rolllog-D68-shape-bound-strict', ['C13', 'C14'], RL, "(m := re_logpath.match(path)) and int(m.group(1)) <= newest:", "(m := re_logpath.match(path)) and int(m.group(1)) < newest:", ['C13.R8', 'C14.R7'])
